@@ -1,6 +1,6 @@
 """C10 source tie: LaneletNetwork.cleanup_lanelet_references / cleanup_traffic_sign_references /
-cleanup_traffic_light_references and remove_lanelet / remove_traffic_sign / remove_traffic_light / remove_intersection
-(commonroad/scenario/lanelet.py) are parsed on every run into the rule language of coq/Model/NetworkSrc.v and written to
+cleanup_traffic_light_references, remove_lanelet / remove_traffic_sign / remove_traffic_light / remove_intersection and
+create_from_lanelet_list (commonroad/scenario/lanelet.py) are parsed on every run into the rule language of coq/Model/NetworkSrc.v and written to
 coq/Gen/Src_network.v; Proofs/SrcNetwork.v proves that the parsed rule lists compute cleanup_lanelets / cleanup_signs /
 cleanup_lights and the parsed remove frames net_remove_* of Model/Network.v, which the C10 theorems are about.
 
@@ -176,6 +176,53 @@ def parse_remove(fn, cleanup_name):
     return f"{{| rp_dict := {uni}; rp_cleanup := {pos} |}}"
 
 
+CLEANUPS = {"cleanup_lanelet_references": "CkLanelets", "cleanup_traffic_sign_references": "CkSigns",
+            "cleanup_traffic_light_references": "CkLights"}
+
+
+def parse_from_list(tree):
+    """create_from_lanelet_list (classmethod), as written: net = cls(); for la in lanelets: net.add_lanelet(
+    copy.deepcopy(la), rtree=False); if cleanup_ids: <cleanup calls>; net._create_strtree(); return net"""
+    fn = None
+    for c in tree.body:
+        if isinstance(c, ast.ClassDef) and c.name == "LaneletNetwork":
+            hits = [f for f in c.body if isinstance(f, ast.FunctionDef) and f.name == "create_from_lanelet_list"]
+            if len(hits) == 1 and [u(d) for d in hits[0].decorator_list] == ["classmethod"]:
+                fn = hits[0]
+    if fn is None:
+        raise SourceShapeError("LaneletNetwork.create_from_lanelet_list not found as a classmethod")
+    a = fn.args
+    if len(a.args) != 3 or len(a.defaults) != 1 or u(a.defaults[0]) != "True" or a.vararg or a.kwarg or a.kwonlyargs:
+        bad(fn, "parameters of create_from_lanelet_list")
+    cls_, ls, flag = (x.arg for x in a.args)
+    body = [s for s in body_of(fn) if not isinstance(s, ast.Assert)]
+    if len(body) < 3 or not isinstance(body[0], ast.Assign) or not isinstance(body[0].targets[0], ast.Name) \
+            or u(body[0].value) != f"{cls_}()" or not isinstance(body[-1], ast.Return) \
+            or u(body[-1].value) != body[0].targets[0].id:
+        bad(fn, "create_from_lanelet_list is not `net = cls(); ...; return net`")
+    net = body[0].targets[0].id
+    loop = body[1]
+    if not (isinstance(loop, ast.For) and not loop.orelse and isinstance(loop.target, ast.Name) and u(loop.iter) == ls
+            and len(loop.body) == 1
+            and u(loop.body[0]) == f"{net}.add_lanelet(copy.deepcopy({loop.target.id}), rtree=False)"):
+        bad(loop, "the lanelets are not added as deep copies, one by one")
+    cleanups, seen_index = [], False
+    for s in body[2:-1]:
+        if isinstance(s, ast.If) and u(s.test) == flag and not s.orelse and not cleanups:
+            for c in s.body:
+                hit = [k for m, k in CLEANUPS.items() if u(c) == f"{net}.{m}()"]
+                if not hit:
+                    bad(c, "statement under `if cleanup_ids:` is not a cleanup call")
+                cleanups.append(hit[0])
+        elif u(s) == f"{net}._create_strtree()":
+            seen_index = True
+        else:
+            bad(s, "statement of create_from_lanelet_list outside the accepted shapes")
+    if not seen_index:
+        bad(fn, "the spatial index is not built")
+    return f"{{| fl_deepcopy := true; fl_cleanups := [{'; '.join(cleanups)}] |}}"
+
+
 def text():
     raw = open(os.path.join(REPO, FILE), "rb").read()
     tree = ast.parse(raw)
@@ -190,6 +237,7 @@ def text():
                          ("src_remove_light", "remove_traffic_light", "cleanup_traffic_light_references"),
                          ("src_remove_inter", "remove_intersection", None)):
         out.append(f"Definition {nm} : remove_prog := {parse_remove(method(tree, meth), cl)}.")
+    out.append(f"Definition src_from_list : fromlist_prog := {parse_from_list(tree)}.")
     return "\n".join(out) + "\n"
 
 
